@@ -153,3 +153,98 @@ def interleave_noops(src: str) -> str:
             return node
 
     return ast.unparse(ast.fix_missing_locations(T().visit(tree))) + "\n"
+
+
+def reshape_logic(src: str, invert_ifs: bool = True, mirror: bool = True) -> str:
+    """A third behaviour-preserving rewrite, inside function bodies only:
+    * `if c: A else: B` (no elif chain) becomes `if not c: B else: A`;
+    * `x == K` / `x != K` / `x is K` / `x is not K` with K a literal, None or an ALL_CAPS / Enum-like constant becomes
+      `K == x` … (both operands are evaluated either way; only builtin comparisons with constants are mirrored, so no
+      user-defined reflected operator changes the result).
+    What a maintainer's stylistic clean-up looks like to a rule that reads the polarity or the operand order of a test."""
+    tree = ast.parse(src)
+
+    def constant_like(e: ast.AST) -> bool:
+        if isinstance(e, ast.Constant):
+            return True
+        if isinstance(e, ast.Name) and e.id.isupper():
+            return True
+        if isinstance(e, ast.Attribute) and e.attr.isupper() and isinstance(e.value, ast.Name) and e.value.id[:1].isupper():
+            return True
+        return False
+
+    class T(ast.NodeTransformer):
+        def __init__(self):
+            self.in_fn = 0
+
+        def visit_FunctionDef(self, node):
+            self.in_fn += 1
+            self.generic_visit(node)
+            self.in_fn -= 1
+            return node
+
+        visit_AsyncFunctionDef = visit_FunctionDef
+
+        def visit_If(self, node):
+            self.generic_visit(node)
+            if self.in_fn and invert_ifs and node.orelse and not (len(node.orelse) == 1 and isinstance(node.orelse[0], ast.If)):
+                test = node.test
+                if isinstance(test, ast.UnaryOp) and isinstance(test.op, ast.Not):
+                    new_test = test.operand
+                else:
+                    new_test = ast.UnaryOp(op=ast.Not(), operand=test)
+                node.test, node.body, node.orelse = ast.copy_location(new_test, test), node.orelse, node.body
+            return node
+
+        def visit_Compare(self, node):
+            self.generic_visit(node)
+            if self.in_fn and mirror and len(node.ops) == 1 and isinstance(node.ops[0], (ast.Eq, ast.NotEq, ast.Is, ast.IsNot)) and constant_like(node.comparators[0]) and not constant_like(node.left):
+                node.left, node.comparators = node.comparators[0], [node.left]
+            return node
+
+    tree = T().visit(tree)
+    ast.fix_missing_locations(tree)
+    return ast.unparse(tree) + "\n"
+
+
+def flatten_else(src: str) -> str:
+    """A fourth behaviour-preserving rewrite (pylint's no-else-return): inside function bodies, when the body of an
+    `if` always leaves the block (its last statement is return / raise / continue / break), the `else:` branch is
+    hoisted after the `if`. elif chains are flattened link by link."""
+    tree = ast.parse(src)
+
+    def leaves(block) -> bool:
+        return bool(block) and isinstance(block[-1], (ast.Return, ast.Raise, ast.Continue, ast.Break))
+
+    class T(ast.NodeTransformer):
+        def __init__(self):
+            self.in_fn = 0
+
+        def visit_FunctionDef(self, node):
+            self.in_fn += 1
+            self.generic_visit(node)
+            self.in_fn -= 1
+            return node
+
+        visit_AsyncFunctionDef = visit_FunctionDef
+
+        def generic_visit(self, node):
+            super().generic_visit(node)
+            if not self.in_fn:
+                return node
+            for fld in ("body", "orelse", "finalbody"):
+                blk = getattr(node, fld, None)
+                if isinstance(blk, list) and blk and all(isinstance(x, ast.stmt) for x in blk):
+                    out = []
+                    for st in blk:
+                        out.append(st)
+                        while isinstance(out[-1], ast.If) and out[-1].orelse and leaves(out[-1].body):
+                            i = out[-1]
+                            rest, i.orelse = i.orelse, []
+                            out.extend(rest)
+                    setattr(node, fld, out)
+            return node
+
+    tree = T().visit(tree)
+    ast.fix_missing_locations(tree)
+    return ast.unparse(tree) + "\n"
